@@ -148,3 +148,33 @@ def require_coverage(res, actions, where=""):
     missing = [a for a in actions if res.coverage.get(a, (0, 0))[1] == 0]
     if missing:
         raise TlcError("vacuity: actions never taken %s %s" % (missing, where))
+
+
+def run_many(jobs, parallel=4):
+    """Run several independent TLC jobs concurrently. jobs = list of (name, module, cfg, kwargs).
+    The cores are split between the jobs (TLC scales sub-linearly, so this is cheaper than
+    running them one after the other with all workers). Returns {name: TlcResult}; the first
+    TlcError is re-raised after all jobs finished."""
+    from concurrent.futures import ThreadPoolExecutor
+    total = int(os.environ.get("VF_WORKERS", "16") or 16)
+    parallel = max(1, min(parallel, len(jobs)))
+    per = max(1, total // parallel)
+
+    def one(job):
+        name, module, cfg, kw = job
+        kw = dict(kw)
+        if kw.get("workers") is None and not kw.get("simulate"):
+            kw["workers"] = per
+        try:
+            return name, run(module, cfg, **kw), None
+        except TlcError as e:
+            return name, None, e
+    out, err = {}, None
+    with ThreadPoolExecutor(parallel) as ex:
+        for name, res, e in ex.map(one, jobs):
+            if e is not None and err is None:
+                err = e
+            out[name] = res
+    if err is not None:
+        raise err
+    return out
